@@ -743,17 +743,20 @@ def printCurrentCmdFullName (D : Desc) (s : St) (suffix : List Byte) : St × Boo
   if !ok then (s, false)
   else printAll D s .cmd [[65, 84], c.name, suffix, nlStr s]
 
+/-- one request form of the current command in the command list: printed when available -/
+def printCmdForm (D : Desc) (s : St) (avail : Bool) (suffix : List Byte) (next : CmdType) : St :=
+  if avail then
+    let s := { s with position := 0 }
+    let (s, ok) := printCurrentCmdFullName D s suffix
+    if !ok then ackError D s
+    else { startFlushRaw s .printCmd with cmdType := next }
+  else { s with cmdType := next }
+
 def printCmdList (D : Desc) (s : St) : St :=
   let s := s.chkUb (s.index < D.commandsNum)
   let s := { s with cmd := some s.index }
   let c := D.cmdD s.cmd
-  let form (s : St) (avail : Bool) (suffix : List Byte) (next : CmdType) : St :=
-    if avail then
-      let s := { s with position := 0 }
-      let (s, ok) := printCurrentCmdFullName D s suffix
-      if !ok then ackError D s
-      else { startFlushRaw s .printCmd with cmdType := next }
-    else { s with cmdType := next }
+  let form := printCmdForm D
   match s.cmdType with
   | .none =>
     if disabledByIndex D.groups s.index then
